@@ -26,6 +26,9 @@ CLAIMS = {
 
  "C08": ("Structural necessary conditions of valid, faithful FLV output: tag framing constants evaluated (11-byte header, size field, PreviousTagSize = 11+len, 9-byte file header), unsigned timestamp rebasing guarded, headers precede media on every path, each packetiser's tag fields derive from the right frame fields, key-frame constants agree across sibling implementations. Does not decide that emitted bytes parse back to the source frames.",
          "constant/table evaluation + SSA dependence + path-state + sibling agreement", "DESIGN.md §3 C08"),
+
+ "C09": ("Structural necessary conditions of valid TS output: the PAT/PMT literal is evaluated completely from source (lengths, PIDs, stream types, CRC-32/MPEG recomputed), every sink write is the table or a whole [188]byte packet with sync byte, exactly one PID-selected continuity-counter increment per packet masked to 4 bits, packetiser frame fields derive from the source frame with the fixed PID/stream-id constants, ADTS length constants agree between writer and reader, SPS/PPS inserted only before IDR. Does not decide payload fidelity or stuffing/PTS arithmetic.",
+         "constant-table evaluation (incl. CRC recomputation) + SSA path-state + dependence", "DESIGN.md §3 C09"),
 }
 NA = {
  "C16": "pure input/output language equivalence of the pattern matcher over all pattern/path pairs: truth lives in string values, no structural clause implies it; deciding it needs exhaustive evaluation (execution), a different technique family",
